@@ -55,6 +55,7 @@ import (
 	"strings"
 	"sync"
 	"sync/atomic"
+	"syscall"
 	"time"
 
 	"github.com/whatap/golib/config"
@@ -190,7 +191,7 @@ type kept struct {
 
 type hist struct {
 	c    *core.Ctx
-	t    *core.Trace
+	t    *sink
 	s    *zip.ZipSendProxyThread
 	mode string // "queue" | "direct"
 
@@ -414,7 +415,7 @@ func (h *hist) waitArrive() string {
 	}
 }
 
-// waitArriveTicking: the worker was released into its timed wait with waiting time w > 0 in force.  While it
+// waitArriveTicking: the worker was released into its timed wait with waiting time w in force.  While it
 // has not reported, every further FULL period of max(w, minPeriod) ms is logged as a Tick (the timer of a period
 // is started after the previous Tick was logged, so k Ticks mean at least k periods).  Load delays the harness's
 // timers and the worker's alike; when the whole process is starved the reference clock stands still too.
@@ -447,10 +448,13 @@ func (h *hist) waitArriveTicking(w int64) string {
 			return "exit"
 		case <-tick:
 			n++
-			if n > idleSlack {
-				h.overrun = true
-			}
 			h.t.Emit(core.Ev{"ev": "Tick", "p": period})
+			if n > idleSlack && !h.overrun {
+				h.overrun = true
+				// the history is refused with this Tick.  Only to end it: a worker that waits without a time limit
+				// comes back when something is queued
+				h.add(h.mk(1, 1))
+			}
 		case <-limit.C:
 			h.fail(fmt.Errorf("worker did not reach its next step within %v", waitMax))
 			h.parkedAt = ""
@@ -460,12 +464,14 @@ func (h *hist) waitArriveTicking(w int64) string {
 }
 
 // release lets the held worker go on; from "poll" it enters its timed wait and the reference clock runs
+// (w = the waiting time in force)
 func (h *hist) release() (ticking bool, w int64) {
 	if h.parkedAt == "poll" {
 		w = h.s.SettingsForVerif().MaxWait // the worker is held: nobody writes the settings now
+		ticking = true                     // a waiting time <= 0 is a wait of no length: periods of minPeriod
 	}
 	h.resume <- struct{}{}
-	return w > 0, w
+	return ticking, w
 }
 
 // step lets the held worker run to its next reported step
@@ -694,7 +700,7 @@ func (h *hist) finish(stopped bool) {
 	h.t.Emit(core.Ev{"ev": "End", "npacks": np, "nrefused": nr})
 }
 
-func newHist(c *core.Ctx, t *core.Trace, gen string, cas int, nondet bool) *hist {
+func newHist(c *core.Ctx, t *sink, gen string, cas int, nondet bool) *hist {
 	h := &hist{c: c, t: t, arrived: make(chan string, 4), resume: make(chan struct{}), done: make(chan struct{}), newLogged: make(chan struct{}),
 		recs: map[*pack.LogSinkPack]*rec{}}
 	extra := core.Ev{}
@@ -719,7 +725,7 @@ func (h *hist) runToPoll() string {
 	return h.parkedAt
 }
 
-func selfHistory(c *core.Ctx, t *core.Trace, gen string, cas int) error {
+func selfHistory(c *core.Ctx, t *sink, gen string, cas int) error {
 	h := newHist(c, t, gen, cas, false)
 	h.keepMode = 1
 	base := len(newRec(1, 1, 0).enc)
@@ -745,12 +751,12 @@ func selfHistory(c *core.Ctx, t *core.Trace, gen string, cas int) error {
 	h.add(h.mk(60, 1))
 	h.add(h.mk(61, 2))
 	h.finish(false)
-	c.Count(fmt.Sprintf("%s/%d", gen, cas), true)
+	t.Count(fmt.Sprintf("%s/%d", gen, cas), true)
 	return h.err
 }
 
 // the schedules of the design counterexamples
-func cexHistory(c *core.Ctx, t *core.Trace, cas int) error {
+func cexHistory(c *core.Ctx, t *sink, cas int) error {
 	h := newHist(c, t, "cex", cas, false)
 	h.keepMode = 1
 	big := int64(1 << 20)
@@ -805,7 +811,7 @@ func cexHistory(c *core.Ctx, t *core.Trace, cas int) error {
 		h.appendCall(h.mk(1, 100))
 		h.finish(false)
 	}
-	c.Count(fmt.Sprintf("cex/%d", cas), true)
+	t.Count(fmt.Sprintf("cex/%d", cas), true)
 	return h.err
 }
 
@@ -852,7 +858,7 @@ func pickConfig(rng *rand.Rand, base int) map[string]int {
 	return m
 }
 
-func gatedHistory(c *core.Ctx, t *core.Trace, cas int) error {
+func gatedHistory(c *core.Ctx, t *sink, cas int) error {
 	rng := c.Rng("gated", cas)
 	h := newHist(c, t, "gated", cas, false)
 	h.keepMode = rng.Intn(3)
@@ -864,9 +870,9 @@ func gatedHistory(c *core.Ctx, t *core.Trace, cas int) error {
 		return h.err
 	}
 	nrec := gatedOps(h, rng, s, 15+rng.Intn(c.Pick(45, 90)))
-	c.Count(fmt.Sprintf("gated/%d/%d/%d/%d/%d", s.maxBuf, s.maxWait, s.zipMin, s.qCap, nrec), nrec >= 2)
+	t.Count(fmt.Sprintf("gated/%d/%d/%d/%d/%d", s.maxBuf, s.maxWait, s.zipMin, s.qCap, nrec), nrec >= 2)
 	if cas < 2 {
-		c.Sample(map[string]interface{}{"gen": "gated", "case": cas, "settings": s.ev(), "records": nrec, "keep_mode": h.keepMode})
+		t.Sample(map[string]interface{}{"gen": "gated", "case": cas, "settings": s.ev(), "records": nrec, "keep_mode": h.keepMode})
 	}
 	return h.err
 }
@@ -938,6 +944,79 @@ func gatedOps(h *hist, rng *rand.Rand, cur settings, nops int) (nrec int) {
 	return nrec
 }
 
+// ---- the stop request meets a sender that holds records in its buffer AND in its queue
+//
+// What is emitted after the stop request must continue the order: the buffered (older) records first, the queued
+// (newer) ones behind them, wherever the limits in force cut the packs.  The worker is at its wait or in the
+// middle of taking / appending a record when the request is made; a SendDirect call may come in between; some
+// queued records cannot be encoded.
+func stopmixHistory(c *core.Ctx, t *sink, cas int) error {
+	rng := c.Rng("stopmix", cas)
+	h := newHist(c, t, "stopmix", cas, false)
+	h.keepMode = rng.Intn(3)
+	h.failErr = rng.Intn(4) == 0
+	base := len(newRec(1, 1, 0).enc)
+	big := int64(1 << 20)
+	bufs := []int64{big, big, big, int64(3*base) + 40, int64(2*base) + 7, int64(5*base) + 3, 400, 0}
+	waits := []int64{15, 8, 3, 15, 0, -5, 1}
+	zips := []int64{0, int64(base), int64(2*base) + 3, 100, big}
+	caps := []int64{0, 0, -1, 6, 8}
+	s := settings{bufs[rng.Intn(len(bufs))], waits[rng.Intn(len(waits))], zips[rng.Intn(len(zips))], caps[rng.Intn(len(caps))]}
+	h.create("queue", true, s, true)
+	if h.err != nil {
+		return h.err
+	}
+	now := int64(1 + rng.Intn(5))
+	nrec := 0
+	small := func() int { return rng.Intn(6) }
+	// 1. the buffer: records of one time (no limit of time is reached), each taken and appended before the next
+	for j := 0; j < 1+rng.Intn(3) && h.parkedAt == "poll" && h.err == nil; j++ {
+		h.add(h.mk(now, small()))
+		nrec++
+		h.runToPoll()
+	}
+	// 2. the queue: newer records (one of them may be impossible to encode)
+	nq := 1 + rng.Intn(4)
+	for j := 0; j < nq; j++ {
+		if rng.Intn(3) == 0 {
+			now += int64(rng.Intn(4))
+		}
+		if rng.Intn(6) == 0 {
+			h.add(h.mkAny(rng, now, pickClen(rng)))
+		} else {
+			h.add(h.mk(now, pickClen(rng)))
+		}
+		nrec++
+	}
+	// 3. where the worker is when the request is made: at its wait, or 1..2 steps into the first queued record
+	for j := rng.Intn(3); j > 0 && h.parkedAt != "" && h.err == nil; j-- {
+		if p := h.step(); p == "take" {
+			nq--
+		}
+	}
+	if rng.Intn(5) == 0 {
+		h.sendDirect(mkBatch(h, rng, now))
+	}
+	st := h.s.SettingsForVerif() // the worker is held
+	both := st.BufLen > 0 && st.QueueLen > 0
+	h.stop()
+	// 4. the drain, hook by hook (retained packs are read again while the next records are appended) or in one go
+	if rng.Intn(2) == 0 {
+		for j := 0; j < 40 && h.parkedAt != "" && h.err == nil; j++ {
+			if p := h.step(); p == "poll" || p == "hang" {
+				break // (a worker that missed the request: reported; finish ends it)
+			}
+			h.peekLast(2)
+		}
+	}
+	h.finish(true)
+	t.Count(fmt.Sprintf("stopmix/%d/%d/%d/%d/%d/%d", s.maxBuf, s.maxWait, s.zipMin, st.BufLen, st.QueueLen, nrec), both)
+	if cas < 1 {
+		t.Sample(map[string]interface{}{"gen": "stopmix", "case": cas, "settings": s.ev(), "buffered_bytes_at_stop": st.BufLen, "queued_at_stop": st.QueueLen})
+	}
+	return h.err
+}
+
 // ---- the waiting time in force changes while the worker runs
 
 // toPoll steps the held worker until it is held at "poll" again; the caller makes sure that the queue is not
@@ -948,7 +1027,7 @@ func (h *hist) drainHeld(qlen int) {
 	}
 }
 
-func reconfHistory(c *core.Ctx, t *core.Trace, cas int) error {
+func reconfHistory(c *core.Ctx, t *sink, cas int) error {
 	rng := c.Rng("reconf", cas)
 	h := newHist(c, t, "reconf", cas, false)
 	h.keepMode = rng.Intn(3)
@@ -979,6 +1058,9 @@ func reconfHistory(c *core.Ctx, t *core.Trace, cas int) error {
 		// here the worker is held at "poll" and the queue is empty
 		m := map[string]int{}
 		switch {
+		case ph < nph-1 && cur.maxWait < 1000 && rng.Intn(4) == 0:
+			cur.maxWait = int64(-rng.Intn(3) * (1 + rng.Intn(4))) // 0 (two in three) or negative: a wait of no length
+			m["max_wait_time"] = int(cur.maxWait)
 		case ph == nph-1 || cur.maxWait >= 1000 || rng.Intn(3) > 0:
 			cur.maxWait = short()
 			m["max_wait_time"] = int(cur.maxWait)
@@ -1023,7 +1105,7 @@ func reconfHistory(c *core.Ctx, t *core.Trace, cas int) error {
 		h.peekLast(2)
 	}
 	h.finish(false)
-	c.Count(fmt.Sprintf("reconf/%d/%d/%d", cas%3, nph, nrec), nidle >= 1)
+	t.Count(fmt.Sprintf("reconf/%d/%d/%d", cas%3, nph, nrec), nidle >= 1)
 	return h.err
 }
 
@@ -1032,7 +1114,7 @@ func reconfHistory(c *core.Ctx, t *core.Trace, cas int) error {
 type ctxKey struct{}
 
 // apiHistory runs in a process of its own: GetInstance creates THE instance of the process.
-func apiHistory(c *core.Ctx, t *core.Trace, cas int) error {
+func apiHistory(c *core.Ctx, t *sink, cas int) error {
 	rng := c.Rng("api", cas)
 	h := newHist(c, t, "api", cas, false)
 	h.keepMode = rng.Intn(3)
@@ -1092,66 +1174,8 @@ func apiHistory(c *core.Ctx, t *core.Trace, cas int) error {
 		cur.qCap = int64(v)
 	}
 	nrec := gatedOps(h, rng, cur, 12+rng.Intn(c.Pick(30, 60)))
-	c.Count(fmt.Sprintf("api/%d/%s/%d", cas%5, h.via, nrec), true)
+	t.Count(fmt.Sprintf("api/%d/%s/%d", cas%5, h.via, nrec), true)
 	return h.err
-}
-
-// apiCase: history (api, cas) in a child process (the same binary, -gen api -case cas), its events copied into t
-func apiCase(c *core.Ctx, t *core.Trace, cas int) error {
-	if c.OnlyGen == "api" && c.OnlyCase >= 0 {
-		return apiHistory(c, t, cas)
-	}
-	exe, err := os.Executable()
-	if err != nil {
-		return err
-	}
-	sub := filepath.Join(c.OutDir, fmt.Sprintf("api-%d", cas))
-	if err := os.MkdirAll(sub, 0o755); err != nil {
-		return err
-	}
-	args := []string{"-tier", c.Tier, "-seed", strconv.FormatInt(c.Seed, 10), "-out", sub, "-gen", "api", "-case", strconv.Itoa(cas)}
-	if len(c.Args) > 0 {
-		kv := []string{}
-		for k, v := range c.Args {
-			kv = append(kv, k+"="+v)
-		}
-		sort.Strings(kv)
-		args = append(args, "-args", strings.Join(kv, ","))
-	}
-	ctx, cancel := context.WithTimeout(context.Background(), 2*waitMax)
-	defer cancel()
-	cmd := exec.CommandContext(ctx, exe, append(args, "c16")...)
-	cmd.Dir = sub
-	if out, err := cmd.CombinedOutput(); err != nil {
-		return fmt.Errorf("child process: %v: %s", err, out)
-	}
-	f, err := os.Open(filepath.Join(sub, "c16_gate.ndjson"))
-	if err != nil {
-		return err
-	}
-	defer f.Close()
-	sc := bufio.NewScanner(f)
-	sc.Buffer(make([]byte, 1<<20), 1<<28)
-	n := 0
-	for sc.Scan() {
-		d := json.NewDecoder(bytes.NewReader(sc.Bytes()))
-		d.UseNumber()
-		ev := core.Ev{}
-		if err := d.Decode(&ev); err != nil {
-			return fmt.Errorf("child trace: %v", err)
-		}
-		t.Emit(ev)
-		n++
-	}
-	if err := sc.Err(); err != nil {
-		return err
-	}
-	if n == 0 {
-		return errors.New("child process wrote no events")
-	}
-	os.RemoveAll(sub)
-	c.Count(fmt.Sprintf("api/%d/%d", cas%5, (cas/5)%3), true)
-	return nil
 }
 
 func mkBatch(h *hist, rng *rand.Rand, now int64) []*rec {
@@ -1163,7 +1187,7 @@ func mkBatch(h *hist, rng *rand.Rand, now int64) []*rec {
 	return rs
 }
 
-func directHistory(c *core.Ctx, t *core.Trace, cas int) error {
+func directHistory(c *core.Ctx, t *sink, cas int) error {
 	rng := c.Rng("direct", cas)
 	h := newHist(c, t, "direct", cas, false)
 	h.keepMode = rng.Intn(3)
@@ -1195,12 +1219,12 @@ func directHistory(c *core.Ctx, t *core.Trace, cas int) error {
 		}
 	}
 	h.finish(false)
-	c.Count(fmt.Sprintf("direct/%d/%d/%d/%d", s.maxBuf, s.maxWait, s.zipMin, nrec), nrec >= 2)
+	t.Count(fmt.Sprintf("direct/%d/%d/%d/%d", s.maxBuf, s.maxWait, s.zipMin, nrec), nrec >= 2)
 	return h.err
 }
 
 // a sender created without settings: each built-in setting decides something observable
-func defaultsHistory(c *core.Ctx, t *core.Trace, cas int) error {
+func defaultsHistory(c *core.Ctx, t *sink, cas int) error {
 	h := newHist(c, t, "defaults", cas, false)
 	h.keepMode = 1
 	switch cas {
@@ -1245,12 +1269,12 @@ func defaultsHistory(c *core.Ctx, t *core.Trace, cas int) error {
 		h.appendCall(h.mkSize(5031, 70)) // 5000 after the first
 		h.finish(false)
 	}
-	c.Count(fmt.Sprintf("defaults/%d", cas), true)
+	t.Count(fmt.Sprintf("defaults/%d", cas), true)
 	return h.err
 }
 
 // nothing held: producer, SendDirect caller and worker run concurrently
-func freeHistory(c *core.Ctx, t *core.Trace, cas int) error {
+func freeHistory(c *core.Ctx, t *sink, cas int) error {
 	rng := c.Rng("free", cas)
 	h := newHist(c, t, "free", cas, true)
 	h.keepMode = rng.Intn(3)
@@ -1302,60 +1326,282 @@ func freeHistory(c *core.Ctx, t *core.Trace, cas int) error {
 	}()
 	wg.Wait()
 	h.finish(false)
-	c.Count(fmt.Sprintf("free/%d/%d/%d/%d", s.maxBuf, s.maxWait, s.zipMin, nrec), true)
+	t.Count(fmt.Sprintf("free/%d/%d/%d/%d", s.maxBuf, s.maxWait, s.zipMin, nrec), true)
 	return h.err
 }
 
 // ---------------------------------------------------------------- driver
 
+// sink is where a history's events go in the process that runs it: one line per event, written at once (no
+// buffer), so that whatever was recorded before a crash of the process is on disk.  Counts and samples travel
+// the same way (lines "_count" / "_sample": the supervising process takes them out again).
+type sink struct {
+	mu   sync.Mutex
+	f    *os.File
+	seed int64
+	tier string
+}
+
+func (t *sink) Emit(ev core.Ev) {
+	b, err := json.Marshal(ev)
+	if err != nil {
+		panic(err)
+	}
+	t.mu.Lock()
+	defer t.mu.Unlock()
+	t.f.Write(append(b, '\n'))
+}
+
+func (t *sink) Reset(gen string, cas int, extra core.Ev) {
+	ev := core.Ev{"ev": "Reset", "gen": gen, "case": cas, "seed": t.seed, "tier": t.tier}
+	for k, v := range extra {
+		ev[k] = v
+	}
+	t.Emit(ev)
+}
+
+func (t *sink) Count(key string, nontrivial bool) {
+	t.Emit(core.Ev{"ev": "_count", "key": key, "nt": nontrivial})
+}
+func (t *sink) Sample(s interface{}) { t.Emit(core.Ev{"ev": "_sample", "s": s}) }
+
+type genDef struct {
+	name  string
+	n     int
+	chunk int // histories per process (api: 1, GetInstance creates THE instance of the process)
+	free  bool
+	f     func(c *core.Ctx, t *sink, cas int) error
+}
+
+func gens(c *core.Ctx) []genDef {
+	return []genDef{
+		{"self", 1, 1, false, func(c *core.Ctx, t *sink, cas int) error { return selfHistory(c, t, "self", cas) }},
+		{"cex", 5, 5, false, cexHistory},
+		{"gated", c.Pick(120, 1000), 40, false, gatedHistory},
+		{"stopmix", c.Pick(40, 300), 40, false, stopmixHistory},
+		{"direct", c.Pick(60, 500), 60, false, directHistory},
+		{"defaults", c.Pick(2, 3), 3, false, defaultsHistory},
+		{"reconf", c.Pick(12, 90), 15, false, reconfHistory},
+		{"api", c.Pick(15, 60), 1, false, apiHistory},
+		{"free", c.Pick(16, 150), 40, true, freeHistory},
+	}
+}
+
+const childEnv = "VERIF_C16_CHILD" // "gen:lo:hi": this process runs histories lo..hi-1 of gen and writes events.ndjson
+
+// runChild: the histories themselves (real senders live in this process)
+func runChild(c *core.Ctx, what string) error {
+	parts := strings.Split(what, ":")
+	if len(parts) != 3 {
+		return fmt.Errorf("bad %s=%q", childEnv, what)
+	}
+	lo, _ := strconv.Atoi(parts[1])
+	hi, _ := strconv.Atoi(parts[2])
+	f, err := os.Create(filepath.Join(c.OutDir, "events.ndjson"))
+	if err != nil {
+		return err
+	}
+	defer f.Close()
+	t := &sink{f: f, seed: c.Seed, tier: c.Tier}
+	for _, g := range gens(c) {
+		if g.name != parts[0] {
+			continue
+		}
+		for cas := lo; cas < hi; cas++ {
+			if err := g.f(c, t, cas); err != nil {
+				return fmt.Errorf("%s/%d: %v", g.name, cas, err)
+			}
+		}
+		return nil
+	}
+	return fmt.Errorf("no generator %q", parts[0])
+}
+
+// crashOfSender: the output of a process that died.  A Go panic / fatal error whose crashing goroutine was started
+// by golib and whose innermost non-runtime frame is golib code is behaviour of the code under test (the sender's
+// worker took the process down): (one-line description, true).  Anything else is a failure of the harness.
+func crashOfSender(out string) (string, bool) {
+	i := strings.Index(out, "panic: ")
+	if j := strings.Index(out, "fatal error: "); i < 0 || (j >= 0 && j < i) {
+		i = j
+	}
+	if i < 0 {
+		return "", false
+	}
+	msg := strings.SplitN(out[i:], "\n", 2)[0]
+	k := strings.Index(out[i:], "\ngoroutine ")
+	if k < 0 {
+		return "", false
+	}
+	block := out[i+k+1:]
+	if e := strings.Index(block, "\n\n"); e >= 0 {
+		block = block[:e]
+	}
+	if !strings.Contains(block, "[running]") || !strings.Contains(block, "\ncreated by github.com/whatap/golib/") {
+		return "", false
+	}
+	for _, ln := range strings.Split(block, "\n")[1:] {
+		if ln == "" || ln[0] == '\t' || strings.HasPrefix(ln, "panic(") || strings.HasPrefix(ln, "runtime.") || strings.HasPrefix(ln, "runtime/") {
+			continue
+		}
+		if strings.HasPrefix(ln, "github.com/whatap/golib/") {
+			if len(msg) > 200 {
+				msg = msg[:200]
+			}
+			if k := strings.LastIndex(ln, "("); k > 0 {
+				ln = ln[:k]
+			}
+			return msg + " at " + ln, true
+		}
+		return "", false
+	}
+	return "", false
+}
+
+// runChunk runs histories lo..hi-1 of g in a process of their own and copies what that process recorded into t.
+// A process that the sender's own goroutine took down (crashOfSender) is recorded: the history it was in ends
+// with an event Crash (the specification has no action for it), and next = the history to go on with.
+func runChunk(c *core.Ctx, t *core.Trace, g genDef, lo, hi int) (next int, err error) {
+	exe, err := os.Executable()
+	if err != nil {
+		return hi, err
+	}
+	sub := filepath.Join(c.OutDir, fmt.Sprintf("run-%s-%d", g.name, lo))
+	if err := os.MkdirAll(sub, 0o755); err != nil {
+		return hi, err
+	}
+	args := []string{"-tier", c.Tier, "-seed", strconv.FormatInt(c.Seed, 10), "-out", sub}
+	if len(c.Args) > 0 {
+		kv := []string{}
+		for k, v := range c.Args {
+			kv = append(kv, k+"="+v)
+		}
+		sort.Strings(kv)
+		args = append(args, "-args", strings.Join(kv, ","))
+	}
+	ctx, cancel := context.WithTimeout(context.Background(), 20*time.Minute)
+	defer cancel()
+	cmd := exec.CommandContext(ctx, exe, append(args, "c16")...)
+	cmd.Dir = sub
+	cmd.Env = append(os.Environ(), fmt.Sprintf("%s=%s:%d:%d", childEnv, g.name, lo, hi))
+	cmd.SysProcAttr = &syscall.SysProcAttr{Pdeathsig: syscall.SIGKILL}
+	out, runErr := cmd.CombinedOutput()
+	crash, crashed := "", false
+	if runErr != nil {
+		if crash, crashed = crashOfSender(string(out)); !crashed {
+			if len(out) > 4000 {
+				out = out[len(out)-4000:]
+			}
+			return hi, fmt.Errorf("the process running histories %d..%d failed (not through a goroutine of the sender): %v: %s", lo, hi-1, runErr, out)
+		}
+	}
+	f, err := os.Open(filepath.Join(sub, "events.ndjson"))
+	if err != nil {
+		return hi, err
+	}
+	defer f.Close()
+	sc := bufio.NewScanner(f)
+	sc.Buffer(make([]byte, 1<<20), 1<<28)
+	n, last := 0, -1
+	for sc.Scan() {
+		raw := map[string]json.RawMessage{}
+		if err := json.Unmarshal(sc.Bytes(), &raw); err != nil {
+			if crashed {
+				break // the line being written when the process died
+			}
+			return hi, fmt.Errorf("recorded events of %s/%d..: %v", g.name, lo, err)
+		}
+		var name string
+		json.Unmarshal(raw["ev"], &name)
+		switch name {
+		case "_count":
+			var key string
+			var nt bool
+			json.Unmarshal(raw["key"], &key)
+			json.Unmarshal(raw["nt"], &nt)
+			c.Count(key, nt)
+			continue
+		case "_sample":
+			var v interface{}
+			json.Unmarshal(raw["s"], &v)
+			c.Sample(v)
+			continue
+		case "Reset":
+			var cas int
+			json.Unmarshal(raw["case"], &cas)
+			last = cas
+		}
+		ev := core.Ev{}
+		for k, v := range raw {
+			ev[k] = v
+		}
+		ev["ev"] = name
+		t.Emit(ev)
+		n++
+	}
+	if err := sc.Err(); err != nil {
+		return hi, err
+	}
+	if crashed {
+		if last < 0 {
+			return hi, fmt.Errorf("the process running %s/%d.. died before its first history: %s", g.name, lo, crash)
+		}
+		t.Emit(core.Ev{"ev": "Crash", "msg": crash})
+		c.Count(fmt.Sprintf("crash/%s/%d", g.name, last), true)
+		os.RemoveAll(sub)
+		return last + 1, nil
+	}
+	if n == 0 {
+		return hi, errors.New("child process wrote no events")
+	}
+	os.RemoveAll(sub)
+	return hi, nil
+}
+
 func Run(c *core.Ctx) error {
+	if what := os.Getenv(childEnv); what != "" {
+		return runChild(c, what)
+	}
 	c.Rule = "one history = one fresh sender (verif constructor) with settings drawn on and next to sizes that really occur " +
 		"(buffer -1..1 MiB, wait -5..15, zip threshold -1..1 MiB, queue -1..6, or none = built-in), records of 0..260 content bytes with " +
 		"virtual times, a client that consumes / retains / mixes and sometimes reports an error; queue mode stepped hook by hook " +
 		"(adds while held and while the worker waits, SendDirect, configuration updates, stop anywhere), direct mode (Append, SendDirect), " +
 		"free-running concurrent runs; about one record in eight cannot be encoded by the pack layer (no tag map, nil pointer); " +
-		"reconf: waiting time switched between 3..12 ms and 1.5..5 s (named or absent) while the worker runs, each switch followed by a batch only the idle " +
+		"stopmix: the stop request arrives while the buffer holds 1..3 records AND 1..4 newer ones are queued (the worker at its wait, or in the middle of " +
+		"taking / appending one), drained hook by hook; " +
+		"reconf: waiting time switched between 0 / negative, 3..12 ms and 1.5..5 s (named or absent) while the worker runs, each switch followed by a batch only the idle " +
 		"time-out flushes, timed by the reference clock; api: public GetInstance in a process of its own, context none / alone / with cancel function / derived, " +
 		"stopped by own / given cancel function or the context's owner, configuration by ApplyConfig or ConfigObserver; " +
-		"non-trivial = at least 2 records (reconf: at least one idle flush); distinct by (settings, number of records)"
+		"histories run in child processes (a process the sender's worker takes down is recorded as event Crash); " +
+		"non-trivial = at least 2 records (reconf: at least one idle flush; stopmix: buffer and queue both non-empty at the stop request); distinct by (settings, number of records)"
 	tg := c.Trace("c16_gate", "Trace_ZipSender")
 	tf := c.Trace("c16_free", "Trace_ZipSender")
-	run := func(gen string, n int, f func(cas int) error) error {
-		if !c.WantGen(gen) {
-			return nil
+	for _, g := range gens(c) {
+		if !c.WantGen(g.name) {
+			continue
 		}
-		for cas := 0; cas < n; cas++ {
-			if c.Want(gen, cas) {
-				if err := f(cas); err != nil {
-					return fmt.Errorf("%s/%d: %v", gen, cas, err)
-				}
+		t := tg
+		if g.free {
+			t = tf
+		}
+		lo, n := 0, g.n
+		if c.OnlyGen == g.name && c.OnlyCase >= 0 {
+			lo, n = c.OnlyCase, c.OnlyCase+1
+		}
+		for lo < n {
+			hi := lo + g.chunk
+			if hi > n {
+				hi = n
 			}
+			next, err := runChunk(c, t, g, lo, hi)
+			if err != nil {
+				return fmt.Errorf("%s: %v", g.name, err)
+			}
+			if next < hi {
+				hi = next // a crash: go on behind the history it happened in
+			}
+			lo = hi
 		}
-		return nil
-	}
-	if err := run("self", 1, func(cas int) error { return selfHistory(c, tg, "self", cas) }); err != nil {
-		return err
-	}
-	if err := run("cex", 5, func(cas int) error { return cexHistory(c, tg, cas) }); err != nil {
-		return err
-	}
-	if err := run("gated", c.Pick(120, 1000), func(cas int) error { return gatedHistory(c, tg, cas) }); err != nil {
-		return err
-	}
-	if err := run("direct", c.Pick(60, 500), func(cas int) error { return directHistory(c, tg, cas) }); err != nil {
-		return err
-	}
-	if err := run("defaults", c.Pick(2, 3), func(cas int) error { return defaultsHistory(c, tg, cas) }); err != nil {
-		return err
-	}
-	if err := run("reconf", c.Pick(12, 90), func(cas int) error { return reconfHistory(c, tg, cas) }); err != nil {
-		return err
-	}
-	if err := run("api", c.Pick(15, 60), func(cas int) error { return apiCase(c, tg, cas) }); err != nil {
-		return err
-	}
-	if err := run("free", c.Pick(16, 150), func(cas int) error { return freeHistory(c, tf, cas) }); err != nil {
-		return err
 	}
 	return nil
 }
